@@ -282,6 +282,82 @@ theorem inv_finalize (s : St) (k : Id) (h : Inv s) : Inv (finalize s k).2 := by
         have := hcnt j
         omega
 
+theorem failedUnbox_released : Gen.Box.failedUnboxReleases = true := by decide
+
+theorem delSum_releasesFor (k : Id) (ks : List Id) : delSum k (releasesFor ks) = ks.count k := by
+  induction ks with
+  | nil => rfl
+  | cons a ks ih =>
+    simp only [releasesFor, List.map_cons, delSum, MsgP.dels] at ih ⊢
+    rw [ih, count_cons_id]
+
+theorem delSum_unreceivedTail (k : Id) (ks : List Id) (isReq : Bool) :
+    delSum k (unreceivedTail true ks isReq) = ks.count k := by
+  cases isReq <;> simp [unreceivedTail, delSum_append, delSum_releasesFor, delSum, MsgP.dels]
+
+/-- appending the release notices (and the exception reply) keeps the queue's side conditions -/
+theorem inv_unreceivedTail (p : Tbl) (q : List MsgP) (ks : List Id) (isReq : Bool) (hd : delPos q) (hb : backOk p q) :
+    delPos (q ++ unreceivedTail true ks isReq) ∧ backOk p (q ++ unreceivedTail true ks isReq) := by
+  have step : ∀ (ms : List MsgP), (∀ m ∈ ms, (∀ k e, m ≠ .back k e) ∧ delPos [m]) →
+      ∀ q, delPos q → backOk p q → delPos (q ++ ms) ∧ backOk p (q ++ ms) := by
+    intro ms
+    induction ms with
+    | nil => intro _ q hd hb; simpa using ⟨hd, hb⟩
+    | cons m ms ih =>
+      intro hm q hd hb
+      have h1 := hm m (by simp)
+      have hq : delPos (q ++ [m]) ∧ backOk p (q ++ [m]) :=
+        ⟨delPos_append q [m] hd h1.2,
+         backOk_append p p q m h1.1 (by intro k; rw [delSum_append]; omega) (by intro k; omega) hb⟩
+      have := ih (fun x hx => hm x (by simp [hx])) (q ++ [m]) hq.1 hq.2
+      simpa [List.append_assoc] using this
+  apply step _ _ q hd hb
+  intro m hm
+  simp only [unreceivedTail, if_true, List.mem_append, releasesFor, List.mem_map] at hm
+  rcases hm with ⟨k, _, rfl⟩ | hm
+  · exact ⟨by intro k' e; simp, ⟨Nat.le_refl 1, trivial⟩⟩
+  · cases isReq with
+    | false => simp at hm
+    | true =>
+      simp at hm
+      subst hm
+      exact ⟨by intro k' e; simp, trivial⟩
+
+theorem inv_splitHead (s : St) (j : Nat) (h : Inv s) : Inv (splitHead s j).2 := by
+  unfold splitHead
+  have hcnt : ∀ (ids : List Id) (k : Id), (ids.take j).count k + (ids.drop j).count k = ids.count k := by
+    intro ids k
+    rw [← List.count_append, List.take_append_drop]
+  cases hq : s.o2p with
+  | nil => exact h
+  | cons m rest =>
+    have hcount := h.count
+    rw [hq] at hcount
+    cases m with
+    | req ids =>
+      dsimp only
+      split
+      · refine ⟨?_, h.pxPos, h.dels, h.backs⟩
+        intro k
+        have := hcount k
+        have := hcnt ids k
+        simp only [refsO, MsgO.refs] at *
+        omega
+      · exact h
+    | reply ids kept =>
+      dsimp only
+      split
+      · refine ⟨?_, h.pxPos, h.dels, h.backs⟩
+        intro k
+        have := hcount k
+        have := hcnt ids k
+        simp only [refsO, MsgO.refs] at *
+        omega
+      · exact h
+    | exc kept => exact h
+    | recvd ids => exact h
+    | unrecvd ids isReq kept => exact h
+
 theorem inv_deliverO2P (s : St) (h : Inv s) : Inv (deliverO2P s).2 := by
   unfold deliverO2P
   cases hq : s.o2p with
@@ -314,6 +390,24 @@ theorem inv_deliverO2P (s : St) (h : Inv s) : Inv (deliverO2P s).2 := by
       intro k
       have := hcount k
       simp only [refsO, MsgO.refs] at this ⊢
+      omega
+    | recvd ids =>
+      simp only [handleO]
+      refine ⟨?_, recvAll_ne_zero ids s.px h.pxPos, h.dels, ?_⟩
+      · intro k
+        have := hcount k
+        simp only [cnt_recvAll, refsO, MsgO.refs] at this ⊢
+        omega
+      · exact backOk_mono s.px _ s.p2o (by intro k; simp only [cnt_recvAll]; omega) h.backs
+    | unrecvd ids isReq kept =>
+      simp only [handleO, failedUnbox_released]
+      have ht := inv_unreceivedTail s.px s.p2o ids isReq h.dels h.backs
+      refine ⟨?_, h.pxPos, ht.1, ht.2⟩
+      intro k
+      have := hcount k
+      simp only [refsO, MsgO.refs] at this
+      dsimp only
+      rw [delSum_append, delSum_unreceivedTail]
       omega
 
 /-- what `decref` leaves in a slot, in boxes outstanding -/
@@ -415,6 +509,7 @@ theorem inv_step (s : St) (op : Op) (h : Inv s) : Inv (step s op).2 := by
     | fetchBad ks => exact inv_fetchBad s ks h
     | back k e => exact inv_passBack s k e h
     | finalize k => exact inv_finalize s k h
+    | splitHead j => exact inv_splitHead s j h
     | deliverO2P => exact inv_deliverO2P s h
     | deliverP2O => exact inv_deliverP2O s h
     | close => exact inv_closeAll s
@@ -439,6 +534,11 @@ theorem step_no_keyError (s : St) (op : Op) (h : Inv s) : (step s op).1 ≠ .key
     | fetchBad ks => simp
     | back k e => simp only [passBack]; cases s.px k <;> simp
     | finalize k => simp only [finalize]; cases s.px k <;> simp
+    | splitHead j =>
+      simp only [splitHead]
+      cases s.o2p with
+      | nil => simp
+      | cons m rest => cases m <;> simp <;> split <;> simp
     | close => simp
     | deliverO2P =>
       simp only [deliverO2P]
@@ -537,6 +637,23 @@ theorem appStep_base (a : App) (op : AOp) : ∃ ops, (appStep a op).2.s = run a.
         · exact ⟨[.deliverO2P], rfl⟩
         · exact ⟨[], rfl⟩
       · exact ⟨[.deliverO2P], rfl⟩
+      · exact ⟨[], rfl⟩
+      · exact ⟨[], rfl⟩
+  | deliverFail j =>
+    simp only [appStep]
+    split
+    · exact ⟨[], rfl⟩
+    · split
+      · split
+        · exact ⟨_, rfl⟩
+        · exact ⟨[], rfl⟩
+      · split
+        · split
+          · exact ⟨_, rfl⟩
+          · exact ⟨_, rfl⟩
+          · exact ⟨[], rfl⟩
+        · exact ⟨[], rfl⟩
+      · exact ⟨[], rfl⟩
   | deliverP2O => exact ⟨[.deliverP2O], rfl⟩
   | close => exact ⟨[.close], rfl⟩
 
